@@ -767,7 +767,7 @@ func (dr *Driver) runWith(c *Case, useGlobal bool, onStart func(*Exchange)) *Exc
 			ex.BuildErr = "client lacks method " + gn
 			return
 		}
-		ep, ok := m.Call(dr.clientMethodArgs(st, c.Method, m.Type()))[0].Interface().(goa.Endpoint)
+		ep, ok := dr.clientEndpoint(st, c.Method, m) // multipart.go (endpoints taking a user encoder are built once)
 		if !ok {
 			ex.BuildErr = "client method does not return a goa.Endpoint"
 			return
